@@ -236,6 +236,10 @@ class C18(common.Prop):
              't': [1.0, -2.0, 0.5], 'own': 0},
             {'kind': 'fwd', 's': '{[#A][#B]}.{#A=[$]CO,#B=[$]CC}', 'weights': None, 'seed': 3,
              't': [1.0, -2.0, 0.5], 'own': 1},
+            {'kind': 'fwd', 's': '{[#A][#B]}.{#A=[$]C[O;w=0.5],#B=[$][C;w=2]C}', 'weights': None, 'seed': 5, 'embed_first': True,
+             't': [1.0, -2.0, 0.5], 'own': 1},
+            {'kind': 'fwd', 's': '{[#A][#B]}.{#A=OC[!],#B=[!]CC}', 'weights': 'random', 'seed': 6, 'embed_first': True,
+             't': [0.0, 3.0, 0.0], 'own': 0},
             {'kind': 'fwd', 's': '{[#A][#B]}.{#A=OC[!],#B=[!]CC}', 'weights': None, 'seed': 4, 't': [10.0, 0.0, -3.25], 'own': 0},
         ]
 
@@ -268,7 +272,7 @@ class C18(common.Prop):
                 out.append(c)
             else:
                 mode = rng.choice(['unit', 'unit', 'random', 'random', 'balanced'])
-                out.append({'kind': 'fwd', 's': s, 'weights': mode if mode != 'unit' else None,
+                out.append({'kind': 'fwd', 's': s, 'embed_first': rng.random() < 0.35, 'weights': mode if mode != 'unit' else None,
                             'seed': rng.randrange(10 ** 6),
                             't': [rng.choice([0.0, 1.0, -2.5, rng.uniform(-50, 50)]) for _ in range(3)],
                             'own': rng.randrange(8)})
@@ -409,6 +413,21 @@ class C18(common.Prop):
         own = list(cg.nodes)[case['own'] % len(cg)]
         own_atoms = set(cg.nodes[own]['graph'].nodes)
 
+        history = []
+        if case.get('embed_first'):
+            # HISTORY on one pair of objects: embed (positions from RDKit), then move the atoms, then forward map
+            # again: the beads must follow the CURRENT atom positions
+            from cgsmiles.coordinates import embedd_cg_molecule_via_rdkit
+            try:
+                embedd_cg_molecule_via_rdkit(cg, aa)
+            except Exception as exc:
+                return {'skip': 'rdkit:embed-first:' + type(exc).__name__}
+            if set(aa.nodes) != set(pos0):
+                pos0 = {a: np.array([rng.uniform(-20, 20) for _ in range(3)]) for a in aa.nodes}
+            history = ['embedd_cg_molecule_via_rdkit(cg, aa)', 'assign new positions to aa',
+                       'forward_map_molecule(cg, aa)  <- judged (out)', 'translate aa by t', 'forward_map_molecule  <- judged (out_t)',
+                       'move atoms outside bead own', 'forward_map_molecule  <- judged (out_p)']
+
         def run(posd):
             for a in aa.nodes:
                 aa.nodes[a]['position'] = posd[a].copy()
@@ -417,7 +436,7 @@ class C18(common.Prop):
             forward_map_molecule(cg, aa)
             return [[b, [float(x) for x in cg.nodes[b]['position']]] for b in cg.nodes if 'position' in cg.nodes[b]]
         out = {'beads': beads, 'pos': [[a, [float(x) for x in p]] for a, p in pos0.items()], 't': [float(x) for x in t],
-               'own': own, 'exc': 0, 'out': [], 'out_t': [], 'out_p': []}
+               'own': own, 'exc': 0, 'out': [], 'out_t': [], 'out_p': [], 'history': history}
         try:
             out['out'] = run(pos0)
             out['out_t'] = run({a: p + t for a, p in pos0.items()})
@@ -501,7 +520,7 @@ class C18(common.Prop):
         if k == 'round':
             return 'round:%s:%s' % (case['variant'], 'conformer' if case['conf'] else 'no-conformer')
         w1 = all(w == 1 for _, ws in impl['beads'] for _, w in ws)
-        return 'fwd:%s' % ('unit-weights' if w1 else 'weights')
+        return 'fwd:%s%s' % ('unit-weights' if w1 else 'weights', ':history-embed-first' if case.get('embed_first') else '')
 
     def known_class(self, case, impl, code):
         if 'skip' in impl:
